@@ -30,7 +30,9 @@ class Rng:
     M = (1 << 64) - 1
 
     def __init__(self, seed):
-        self.s = (seed * 0x9E3779B97F4A7C15 + 0x1234567) & self.M
+        # hash the seed so that neighbouring VERIF_SEED values give unrelated streams
+        h = hashlib.sha256(('momo-verif-seed-%d' % seed).encode()).digest()
+        self.s = int.from_bytes(h[:8], 'little')
 
     def next(self):
         self.s = (self.s + 0x9E3779B97F4A7C15) & self.M
